@@ -325,7 +325,11 @@ func (db *DB) exist(o Object) (ok bool, err error) {
 	if os.IsNotExist(err) {
 		return false, nil
 	}
-	return stat.Mode().IsRegular() && err == nil, nil
+	// stat is nil for any other error (permission, I/O...)
+	if err != nil {
+		return false, err
+	}
+	return stat.Mode().IsRegular(), nil
 }
 
 func (db *DB) writeObject(o Object) (err error) {
